@@ -154,6 +154,11 @@ class Context:
                 raise SemanticError(
                     f"Cannot evaluate constant operator {expr.op}", expr.loc
                 )
+            if expr.op in ("/", "%") and b == 0:
+                # Floating point operands (integers are handled above)
+                raise SemanticError(
+                    "Division by zero in constant expression", expr.loc
+                )
             return ops[expr.op](a, b)
         elif isinstance(expr, ast.Unop) and expr.op in ("+", "-"):
             a = self.eval_const(expr.a)
